@@ -5,6 +5,8 @@
 (*   a n b nb 1 2 - .   (so that a-nb1nb2 and nb-a-1nb2 are inside)        *)
 (* Mode "pkgpath": every path of <= MaxPieces segments over .. . a b ""    *)
 (*   with and without a leading '/'                                        *)
+(* Mode "pkgpath-deep": 5 pieces (../ ./ a/ .. a), deeper - so that, e.g.,    *)
+(*   ../../../../a/a is inside the quick bound                             *)
 (* Mode "depend": every x:y:... of <= MaxPieces parts over valid/invalid   *)
 (*   patterns and paths                                                    *)
 (***************************************************************************)
@@ -16,6 +18,7 @@ PiecesOf(m) ==
     CASE m = "pkgname" -> { <<97>>, <<110>>, <<98>>, <<110, 98>>, <<49>>, <<50>>, <<DASH>>, <<DOT>> }
       [] m = "pkgpath" -> { <<DOT, DOT, SLASH>>, <<DOT, SLASH>>, <<97, SLASH>>, <<98, SLASH>>, <<SLASH>>,
                             <<DOT, DOT>>, <<DOT>>, <<97>>, <<98>> }
+      [] m = "pkgpath-deep" -> { <<DOT, DOT, SLASH>>, <<DOT, SLASH>>, <<97, SLASH>>, <<DOT, DOT>>, <<97>> }   \* fewer pieces, deeper
       [] m = "depend"  -> { <<97, GT, 49>>, <<97, GT, 49, GT, 50>>, <<97, DASH, LBRK, 48, DASH, 57, RBRK, STAR>>,
                             <<LBRACE, 97, COMMA, 98, RBRACE>>, <<LBRACE, 97>>, <<97, SLASH, 98>>,
                             <<DOT, DOT, SLASH, DOT, DOT, SLASH, 97, SLASH, 98>>, <<97>>, <<COLON>> }
@@ -39,8 +42,8 @@ AccessorsAgree == (Mode = "pkgname" /\ HasDash(s) /\ NameBase(s) # <<>> /\ NameV
                     SumBase(s) = <<Split(s).base>> /\ SumVer(s) = <<Split(s).ver>>
 
 \* ---- C19 ----
-AcceptIsRef == Mode = "pkgpath" => (PkgPathNew(s).ok = "T") = AcceptRef(s)
-Spellings   == Mode = "pkgpath" =>
+AcceptIsRef == Mode \in {"pkgpath", "pkgpath-deep"} => (PkgPathNew(s).ok = "T") = AcceptRef(s)
+Spellings   == Mode \in {"pkgpath", "pkgpath-deep"} =>
                  LET a == PkgPathNew(s) IN
                  a.ok = "T" =>
                    /\ PkgPathNew(JoinSlash(a.short)) = [ok |-> "T", short |-> a.short, full |-> a.full]  \* re-parse fixpoint
@@ -56,7 +59,7 @@ Case ==
                  out |-> [base |-> PkgBase(s), ver |-> v, rev |-> RevExpected(v), sb |-> SumBase(s), sv |-> SumVer(s)]]
            ELSE [op |-> "pkgname", each |-> 1, in |-> [s |-> s],
                  out |-> [base |-> PkgBase(s), ver |-> v, sb |-> SumBase(s), sv |-> SumVer(s)]]
-      [] Mode = "pkgpath" -> [op |-> "pkgpath", in |-> [s |-> s], out |-> PkgPathNew(s)]
+      [] Mode \in {"pkgpath", "pkgpath-deep"} -> [op |-> "pkgpath", in |-> [s |-> s], out |-> PkgPathNew(s)]
       [] Mode = "depend"  -> [op |-> "depend", in |-> [s |-> s], out |-> DependNew(s)]
 Emit == (Mode = "depend" => DependJudged(s)) => PrintT(<<"CASE", ToJson(Case)>>)
 =============================================================================
